@@ -28,8 +28,12 @@ pub fn exec(tag: i64, inp: &[i64]) -> Vec<i64> {
     match tag {
         70 => {
             let (c, n, v) = (ch(inp[0]), cn(inp[1]), u14(inp[2]));
+            // the constructor is its own monitored call: a panic later on is a different observation
+            let m = match region(|| ControlChange14BitMessage::new(c, n, v)) {
+                None => return vec![PANIC],
+                Some(m) => m,
+            };
             let r = region(|| {
-                let m = ControlChange14BitMessage::new(c, n, v);
                 let r: [RawShortMessage; 2] = m.to_short_messages();
                 let s: [StructuredShortMessage; 2] = m.into();
                 let g = [
@@ -41,7 +45,12 @@ pub fn exec(tag: i64, inp: &[i64]) -> Vec<i64> {
                 (g, r, s)
             });
             match r {
-                None => vec![PANIC],
+                None => vec![
+                    m.channel().get() as i64,
+                    m.msb_controller_number().get() as i64,
+                    PANIC,
+                    m.value().get() as i64,
+                ],
                 Some((g, r, s)) => {
                     let mut o = g.to_vec();
                     o.extend_from_slice(&bytes_of(&r[0]));
